@@ -88,6 +88,16 @@ class VLoop(base_events.BaseEventLoop):
     def remove_signal_handler(self, sig):
         return getattr(self, "_sig", {}).pop(sig, None) is not None
 
+    # -- fake listening sockets: sites can start; the harness creates connections itself --------
+    async def create_server(self, protocol_factory, host=None, port=None, **kw):
+        srv = FakeServer(self, protocol_factory, (host, port))
+        self.servers = getattr(self, "servers", [])
+        self.servers.append(srv)
+        return srv
+
+    async def create_unix_server(self, protocol_factory, path=None, **kw):
+        return await self.create_server(protocol_factory, path, None)
+
     async def sendfile(self, *a, **kw):
         raise NotImplementedError
 
@@ -209,3 +219,32 @@ class VLoop(base_events.BaseEventLoop):
             self._ready.clear()
             self._scheduled.clear()
             self._closed = True
+
+
+class FakeServer:
+    """What loop.create_server() returns, without a socket."""
+
+    def __init__(self, loop, factory, addr):
+        self._loop = loop
+        self.factory = factory
+        self.addr = addr
+        self.closed = False
+        self.sockets = []
+
+    def close(self):
+        self.closed = True
+
+    async def wait_closed(self):
+        return None
+
+    def is_serving(self):
+        return not self.closed
+
+    def get_loop(self):
+        return self._loop
+
+    def close_clients(self):
+        pass
+
+    def abort_clients(self):
+        pass
